@@ -251,6 +251,17 @@ class Comment:
 
 
 @dataclass
+class EmptyItem(Comment):
+    """An item prefix with nothing behind it ('o P1 ', '- '): valid for the grammar, an item WITHOUT body, which is
+    not a note (zorg skips it); like a comment it must leave no trace in the notes around it."""
+
+    text: str = "- "
+
+    def lines(self) -> list:
+        return [self.text]
+
+
+@dataclass
 class Block:
     entries: list
     blank_after: int = 1
@@ -477,6 +488,7 @@ class GenOpts:
     p_foreign: float = 0.04  # body words with non-ASCII characters (see FOREIGN_WORDS)
     foreign_pool: Optional[list] = None  # default FOREIGN_WORDS
     p_special_day: float = 0.06  # see SPECIAL_DAYS
+    p_empty_item: float = 0.05  # see EmptyItem
 
 
 # days at the edges of what YYMMDD can carry: leap days (incl. 2000-02-29, a leap year only by the 400 rule),
@@ -633,7 +645,7 @@ class PageGen:
         nw = rng.choice([1, 2, 3, 4])
         if r < self.o.p_bullet_prop:
             key = rng.choice(["foo", "due", "note_k", "A", "k2", "url_t"]) + (("b" + self.uniq()) if self.o.unique_meta else "")
-            ws = [w_plain(rng) for _ in range(nw)]
+            ws = [w_plain(rng) for _ in range(nw)] if rng.random() >= 0.15 else []  # ('  * key::' without a value is legal)
             return Cont("  ", "* ", ws, prop_key=key)
         # The first word of a bullet is kept free of '::' (a '::' there is the
         # bullet-property syntax, and properties must all sit on one level).
@@ -654,6 +666,9 @@ class PageGen:
         for _ in range(rng.randint(1, self.o.max_items)):
             if rng.random() < self.o.p_comment:
                 entries.append(self.comment())
+            elif self.o.p_empty_item and rng.random() < self.o.p_empty_item:
+                entries.append(EmptyItem([], text=rng.choice(["o P1 ", "- ", "x P2 ", "< ", "> P9 ", "~ ", "o P0 ", "x "])))
+                entries.append(self.item())
             else:
                 entries.append(self.item())
         return Block(entries, blank_after=rng.choice([1, 1, 1, 2, 3]))
